@@ -6,3 +6,6 @@ import Tumfl.Props.C04
 #print axioms Tumfl.Props.C12_untouched
 #print axioms Tumfl.Props.C12_errors
 #print axioms Tumfl.Props.C04_lookup_none
+#print axioms Tumfl.Props.C12_stmt_cycles_terminate
+#print axioms Tumfl.Props.C12_cycle_example
+#print axioms Tumfl.Props.C04_terminates
